@@ -2339,6 +2339,8 @@ struct evrrul_s {
 	size_t rdi;
 	/* the instant we handed out last */
 	echs_instant_t last;
+	/* the period the proto event belongs to, if it's from a refill */
+	echs_instant_t grp;
 	/* unrolled cache */
 	size_t ncch;
 	echs_instant_t cch[GRP_CCH_OFF + GRP_CCH_OFF];
@@ -2459,6 +2461,8 @@ refill(struct evrrul_s *restrict strm)
 	for (size_t j = 0U; j < GRP_CCH_OFF; j++) {
 		strm->cch[j] = strm->e.from;
 	}
+	/* and tell the filler which period to resume from */
+	strm->cch[GRP_CCH_OFF] = strm->grp;
 
 	/* now go and see who can help us */
 	switch (rr->freq) {
@@ -2494,6 +2498,7 @@ refill(struct evrrul_s *restrict strm)
 	if (strm->ncch >= GRP_CCH_OFF) {
 		/* keep one for the next refill */
 		strm->e.from = strm->cch[--strm->ncch];
+		strm->grp = strm->cch[strm->ncch + GRP_CCH_OFF];
 	} else {
 		/* take a note that we're at the end of the stream */
 		strm->e.from = echs_nul_instant();
